@@ -44,7 +44,7 @@ pub struct SeqCase {
 
 fn message(allow_force: bool) -> impl Strategy<Value = Message> {
     let kind = prop_oneof![
-        8 => (0u8..4, any::<bool>(), prop::bool::weighted(0.12)).prop_map(|(layout, compress, foreign)| MsgKind::Cluster { layout, compress, foreign }),
+        8 => (prop_oneof![8 => 0u8..4, 1 => Just(4u8)], any::<bool>(), prop::bool::weighted(0.12)).prop_map(|(layout, compress, foreign)| MsgKind::Cluster { layout, compress, foreign: foreign && layout < 4 }),
         6 => (0u8..4, prop::bool::weighted(0.12)).prop_map(|(content, foreign)| MsgKind::Repl { content, foreign }),
         1 => (0u8..5).prop_map(MsgKind::MalformedCluster),
         1 => (0u8..4).prop_map(MsgKind::MalformedRepl),
@@ -69,15 +69,19 @@ fn build_cluster_cmd(m: &Message) -> Option<Cmd> {
     let r = layout_ranges(*layout);
     let sr = |x: (usize, usize)| vec![SlotRange { range_list: RangeList::new(vec![Range(x.0, x.1)]), tag: SlotRangeTag::None }];
     let mut local = HashMap::new();
-    local.insert(if *foreign { FOREIGN_NODE.to_string() } else { NODES[0].to_string() }, sr(r[0]));
-    local.insert(NODES[1].to_string(), sr(r[1]));
     let mut peer = HashMap::new();
-    peer.insert(PEERS[0].to_string(), sr(r[2]));
-    peer.insert(PEERS[1].to_string(), sr(r[3]));
+    // layout 4 = the message a proxy gets when it is released from its cluster: empty name, no nodes
+    let released = *layout >= 4;
+    if !released {
+        local.insert(if *foreign { FOREIGN_NODE.to_string() } else { NODES[0].to_string() }, sr(r[0]));
+        local.insert(NODES[1].to_string(), sr(r[1]));
+        peer.insert(PEERS[0].to_string(), sr(r[2]));
+        peer.insert(PEERS[1].to_string(), sr(r[3]));
+    }
     let meta = ProxyClusterMeta::new(
         m.epoch,
         ClusterMapFlags { force: m.force, compress: *compress },
-        ClusterName::try_from("c").expect("n"),
+        ClusterName::try_from(if released { "" } else { "c" }).expect("n"),
         local,
         peer,
         ClusterConfig::default(),
@@ -238,6 +242,8 @@ pub async fn observe(world: &World, model: &Model, when: &str) -> Result<(), Fai
         };
         let want = match model.cluster_layout {
             None => None,
+            // released from its cluster: nothing is served any more
+            Some(l) if l >= 4 => None,
             Some(l) => {
                 let r = layout_ranges(l);
                 let idx = r.iter().position(|(a, b)| slot >= *a && slot <= *b).expect("covered");
@@ -248,7 +254,7 @@ pub async fn observe(world: &World, model: &Model, when: &str) -> Result<(), Fai
             }
         };
         match want {
-            None => ensure!(outcome.starts_with("ERR"), "C05:routing", "{}: no metadata installed but GET slot {} gives {}", when, slot, outcome),
+            None => ensure!(outcome.starts_with("ERR"), "C05:routing", "{}: no cluster metadata installed (or the proxy was released from its cluster) but GET slot {} gives {}", when, slot, outcome),
             Some(w) => ensure!(
                 outcome == w,
                 "C05:routing-does-not-match-reported-epoch",
@@ -430,7 +436,8 @@ pub fn check_conc(case: &ConcCase, obs: &mut Obs) -> Result<(), Fail> {
             all.extend(h.await.map_err(|e| Fail::new("C05:concurrent-task-panicked", e.to_string()))?);
         }
         for d in &all {
-            ensure!(d.ok || d.reply.contains("OLD_EPOCH") || d.reply.contains("TRY_AGAIN"), "C05:concurrent-unexpected-reply", "message {:?} got {}", d.msg, d.reply);
+            // a well-formed message for this host is either applied or refused as old - nothing else
+            ensure!(d.ok || d.reply.contains("OLD_EPOCH"), "C05:concurrent-unexpected-reply", "message {:?} got {} (neither applied nor answered OLD_EPOCH)", d.msg, d.reply);
         }
         for is_cluster in [true, false] {
             let of_kind: Vec<&Done> = all.iter().filter(|d| matches!(d.msg.kind, MsgKind::Cluster { .. }) == is_cluster).collect();
@@ -510,7 +517,7 @@ pub fn check_conc(case: &ConcCase, obs: &mut Obs) -> Result<(), Fail> {
     result
 }
 
-pub const RULE_SEQ: &str = "[sequential] sequences of 1..24 SETCLUSTER/SETREPL messages with epochs from a pool of 7 (equal, lower, higher all occur), FORCE/COMPRESS flags, 4 distinguishable layouts / replication contents, local nodes on the announce host or (12%) on another host, malformed messages; delivered to a real proxy; oracle: sequential reference model (applied iff forced or epoch > installed epoch of its kind -> OK else OLD_EPOCH; foreign/malformed -> error, no change); after EVERY message GETEPOCH == model, routing of 8 probe slots == layout of the installed message, INFOREPL == installed replication content; non-trivial = an equal-epoch or stale delivery after a newer one; distinct = hash of the case";
+pub const RULE_SEQ: &str = "[sequential] sequences of 1..24 SETCLUSTER/SETREPL messages with epochs from a pool of 7 (equal, lower, higher all occur), FORCE/COMPRESS flags, 4 distinguishable layouts plus the empty-cluster message a released proxy gets / 4 replication contents, local nodes on the announce host or (12%) on another host, malformed messages; delivered to a real proxy; oracle: sequential reference model (applied iff forced or epoch > installed epoch of its kind -> OK else OLD_EPOCH; foreign/malformed -> error, no change); after EVERY message GETEPOCH == model, routing of 8 probe slots == layout of the installed message, INFOREPL == installed replication content; non-trivial = an equal-epoch or stale delivery after a newer one; distinct = hash of the case";
 pub const RULE_CONC: &str = "[concurrent] 2..4 tasks on a 4-thread runtime deliver lists of non-forced messages to the same proxy concurrently (free-running, no hooks); oracle: invocation/completion stamps; accepted messages of a kind have pairwise distinct epochs and respect real-time order, every OLD_EPOCH is explainable by an accepted message with epoch >= its own that did not start after it ended, final GETEPOCH/routing/roles = accepted message with the largest epoch; non-trivial = deliveries overlapped in time";
 
 pub fn run(ctx: &Ctx, findings: &Findings) -> PropReport {
